@@ -250,4 +250,20 @@ PROPS = {
                       "structure only (it does not know which fields a method touches). The histogram interval recorder shares the skeleton; its stream cases use the performance variant.",
         "assumptions": ["sync.Mutex is a correct mutex"],
     },
+    "C10": {
+        "streams": ["conc-coll"],
+        "race": True,
+        "rule": "conc-coll (harness built with -race, isolated child; a detected data race kills the child and is reported): synchronized collector and buffered-over-synchronized "
+                "collector, 1-16 producers x 1-60 (thorough: up to 200) samples, buffer sizes 0-8, GOMAXPROCS in {1,2,16}, concurrent Info/Resolve/SetMetadata observers; the wrapped "
+                "collector logs the real linearisation order; plus a catcher hammer (2-16 goroutines x 100-2100 errors). Oracle: every acknowledged Add once, per-producer order, decoded "
+                "output = logged order, buffered delivery after cancel. Distinct = distinct case line.",
+        "level_text": "Theorems (Props/C10.lean) for every schedule, any number of producers and samples: what the wrapped collector received from a producer is exactly what that producer "
+                      "was acknowledged, in order (sync_log_is_acknowledged, sync_finished_producer, sync_conservation, mutual exclusion); buffered: accepted = delivered ++ queued "
+                      "(nothing dropped), the drain goroutine is enabled while something is queued, it stops only after cancellation and then everything accepted before the "
+                      "cancellation has been delivered; the catcher's flags only grow.",
+        "level_note": "PARTIAL for 'no data races': the Go memory model is outside the model; the -race build of the harness is supporting evidence, not a theorem. An Add racing with the "
+                      "cancellation may be accepted after the drain goroutine stopped (the property speaks of items accepted before cancellation). The drain goroutine never exits "
+                      "after draining a non-empty queue on cancel (it ranges over a channel nobody closes): a leak, not a lost sample.",
+        "assumptions": ["sync.RWMutex is a correct mutex", "channel operations are atomic steps"],
+    },
 }
